@@ -108,6 +108,12 @@ var layoutSpecs = []layoutSpec{
 		st(4, "zone", "z1", "host", "h2"),
 		st(5, "zone", "z2"),
 	}},
+	7: {"unknown-store", []storeSpec{ // store 4 holds peers but is not known to the cluster
+		st(1, "zone", "z1", "host", "h1"),
+		st(2, "zone", "z2", "host", "h1"),
+		st(3, "zone", "z1", "host", "h2"),
+		{ghost: true, id: 4},
+	}},
 	5: {"four-plain", []storeSpec{
 		st(1, "zone", "z1", "host", "h1"),
 		st(2, "zone", "z1", "host", "h2"),
@@ -160,7 +166,9 @@ func buildLayout(spec layoutSpec, minPeers, maxP int, leaderless bool) *layout {
 		for _, kv := range s.labels {
 			m.Labels = append(m.Labels, &metapb.StoreLabel{Key: kv[0], Value: kv[1]})
 		}
-		l.set.SetStore(core.NewStoreInfo(m))
+		if !s.ghost {
+			l.set.SetStore(core.NewStoreInfo(m))
+		}
 	}
 	for li, loc := range locOpts {
 		for i, a := range spec.stores {
